@@ -2,7 +2,7 @@
 from .common import *
 from . import C15
 
-SIDECARS = C15.SIDECARS
+SIDECARS = C15.SIDECARS + ["protocol_sm"]
 PROPS = ("C05", "C09", "C18", "C03")
 H = "pyvc.inverter_harness"
 ENTRY = ("discover_udp", "discover_tcp", "connect_ET", "connect_ES", "connect_DT", "connect_auto", "search_inverters")
@@ -13,12 +13,16 @@ def entry_units(tier):
 
 
 def units(tier):
-    return entry_units(tier)
+    from . import C04
+    return entry_units(tier) + C04.protocol_units(tier)
 
 
-replay = replay_api
+def replay(vc, unit):
+    if vc["name"].startswith("entry:"):
+        return replay_api(vc, unit)
+    return replay_protocol(vc, unit)
 INFO = {
     "trusted_base": [TB["T1"], TB["T2"], TB["T3"]],
     "assumptions": [],
-    "undecided_clauses": ["per-request retry budget on the protocol object (exit post-condition _retry == 0 of send_request): protocol units"],
+    "undecided_clauses": ["that no timeout armed for an earlier attempt is still pending when a new attempt starts (stale timers) is not decided: the ghost model counts armed timeouts but does not order them"],
 }
